@@ -13,6 +13,8 @@ def lex_of(doc_text):
     t = m.group(1).strip()
     if t == "":
         return "nothing"
+    if t == '""':
+        return "dq_empty"
     if t == G.NoneStr:
         return "cq_none"
     if t.startswith("```") and t.endswith("```"):
